@@ -34,6 +34,7 @@ Record case18 := {
   c_safe : bool;       (* true: EvalWithScope(ctx, "", src, SafeStdScope()); false: top-level //eval.evaluator(cfg).eval(src) *)
   c_cfg : expr;        (* the configuration expression (top-level mode) *)
   c_src : expr;        (* the sandboxed source *)
+  c_rep : rep;         (* representation in which the source is handed to evaluator(cfg).eval (top-level mode) *)
   c_st : Z;            (* observed: 0 value, 1 error (or panic), 3 timeout *)
   c_cls : list cls;    (* observed classes reachable from the result *)
   c_eff : list oeff    (* observed effects *)
@@ -42,7 +43,7 @@ Record case18 := {
 Definition fuel : nat := 60.
 
 Definition program (k : case18) : expr :=
-  EApp (EDot (EApp (EDot (EDot EPkg "eval") "evaluator") (c_cfg k)) "eval") (EQuote (c_src k)).
+  EApp (EDot (EApp (EDot (EDot EPkg "eval") "evaluator") (c_cfg k)) "eval") (EQuote (c_rep k) (c_src k)).
 
 Definition run_case (q : quirks) (k : case18) : res * list eff :=
   if c_safe k then run_safe q gen_world fuel (c_src k) else run_top q gen_world fuel (program k).
